@@ -75,6 +75,8 @@ use async_trait as _;
 // ============== Re-exports ============== //
 #[cfg(test)]
 use criterion as _;
+#[cfg(slawlor_ractor_verif)]
+pub use net::session_verif;
 pub use net::{BoxRead, BoxWrite};
 pub use net::{ClusterBidiStream, IncomingEncryptionMode, NetworkStream};
 pub use node::client::connect as client_connect;
